@@ -118,7 +118,8 @@ def gen_case(rng, max_m=1000, small=False, weaver=False):
     case = {"x": x, "y": y, "x_ref": x_ref, "y_ref": y_ref, "idx": idx, "mode": mode, "strategy": strategy, "perm": perm,
             "on_grid": on_grid, "extras": extras, "alpha": alpha,
             "target_rule": RULES[int(rng.integers(0, 2))], "ref_rule": RULES[int(rng.integers(0, 2))],
-            "xcls": xc, "ycls": yc, "m": m, "K": K, "weaver": bool(weaver)}
+            "xcls": xc, "ycls": yc, "m": m, "K": K, "weaver": bool(weaver),
+            "omit_defaults": bool(rng.integers(0, 2))}
     return case
 
 
@@ -126,8 +127,17 @@ def call_args(case, containers=None):
     """keyword arguments for integral_matching_reference_stretch"""
     kw = {"target_function_integral_method": case["target_rule"],
           "reference_function_integral_method": case["ref_rule"], "alpha": case["alpha"]}
+    if case.get("omit_defaults"):
+        # documented defaults: trapezoid target, rectangle reference, alpha 1.0, strategy 'closest'
+        if kw["target_function_integral_method"] == "trapezoid":
+            del kw["target_function_integral_method"]
+        if kw["reference_function_integral_method"] == "rectangle":
+            del kw["reference_function_integral_method"]
+        if kw["alpha"] == 1.0:
+            del kw["alpha"]
     if case["mode"] == "search":
-        kw["fixed_points_finding_strategy"] = case["strategy"]
+        if not (case.get("omit_defaults") and case["strategy"] == "closest"):
+            kw["fixed_points_finding_strategy"] = case["strategy"]
     elif case["mode"] == "positions":
         kw["fixed_points_in_x"] = [float(case["x"][i]) for i in _order(case)]
     else:
